@@ -47,6 +47,12 @@ type Case struct {
 	// PreStartMs > 0: every rps schedule object is started (Schedule.Start) that long in the past before the pool
 	// gets it, so that its first requests are already overdue when the first instance asks for one
 	PreStartMs int `json:"rps_schedule_started_ms_ago,omitempty"`
+	// Hiccup: a dense profile (thousands of tokens per second per instance for 2-4 s) against a target that answers at
+	// once except for the shots number HiccupAtShot[i] of every gun, which take HiccupMs[i] (see genHiccup,
+	// hiccup_test.go; replaces ShotMs)
+	Hiccup       bool  `json:"dense_hiccup,omitempty"`
+	HiccupAtShot []int `json:"hiccup_at_shot,omitempty"`
+	HiccupMs     []int `json:"hiccup_ms,omitempty"`
 }
 
 func genDense(t *rapid.T) Case {
@@ -300,6 +306,13 @@ func check(c Case, o *vf.Obs) error {
 		shotUs = c.ShotUs
 		maxResp = time.Millisecond
 	}
+	tokens := T
+	if c.PerInstance {
+		tokens = T * c.Instances
+	}
+	if c.Hiccup {
+		shotUs, maxResp = hiccupPlan(c, tokens)
+	}
 	prov := fake.NewProvider(fake.ProviderPlan{Total: -1, Queue: 4, AfterLast: "wait_ctx"})
 	guns := fake.NewGunWorld(fake.GunPlan{ShotUs: shotUs, PanicAtShot: -1, FactoryErrAt: -1, BindErrAt: -1})
 	aggr := fake.NewAggregator(fake.AggPlan{})
@@ -332,10 +345,6 @@ func check(c Case, o *vf.Obs) error {
 	eng := engine.New(pand.NopLog(), m, conf)
 	ctx, cancel := context.WithCancel(context.Background())
 	defer cancel()
-	tokens := T
-	if c.PerInstance {
-		tokens = T * c.Instances
-	}
 	// hard bound of the run length
 	var bound time.Duration
 	if c.Discard {
@@ -443,8 +452,22 @@ func check(c Case, o *vf.Obs) error {
 	vsProfile, longestWait := 0, time.Duration(0)
 	// the first request an instance asks for: how late it is, and how long after the start of the run it was asked for
 	firstLate2, firstLateLt2, lateStarters, lateStarterFirstLate2, lateStarterOnTime := 0, 0, 0, 0, 0
+	// instances that discarded a token and fired a later one (the target answers again and gets load again), and
+	// instances that discarded at all
+	resumedInstances, discardingInstances := 0, 0
 	for g, evs := range byG {
 		sort.SliceStable(evs, func(i, j int) bool { return evs[i].at.Before(evs[j].at) })
+		discarded, resumed := false, false
+		for _, e := range evs {
+			discarded = discarded || e.kind == "discard"
+			resumed = resumed || (discarded && e.kind == "shot")
+		}
+		if discarded {
+			discardingInstances++
+		}
+		if resumed {
+			resumedInstances++
+		}
 		for i := 0; i < len(evs); i++ {
 			if evs[i].kind != "next" {
 				return fmt.Errorf("harness: goroutine %d has a %s without a preceding token", g, evs[i].kind)
@@ -559,6 +582,22 @@ func check(c Case, o *vf.Obs) error {
 	o.ClassIf(pr.hasUnl && nexts > tokens, "unlimited_section_fired")
 	o.ClassIf(vsProfile > 0, "shots_compared_with_profile_time")
 	o.ClassIf(c.Long, "long_wait_profile")
+	if c.Hiccup {
+		// what a hiccup leaves behind: the tokens per instance the profile still holds when the first slow response
+		// begins (the run-length bound leaves 3 s for skipping the overdue ones among them and for the harness)
+		rest := 0
+		if c.Instances > 0 && len(c.HiccupAtShot) > 0 {
+			rest = tokens/c.Instances - c.HiccupAtShot[0]
+		}
+		o.Class("dense_hiccup_profile", "dense_hiccup_profile_"+c.Profile.Kind)
+		o.ClassIf(discardingInstances >= c.Instances, "dense_hiccup_every_instance_discarded")
+		o.ClassIf(resumedInstances > 0, "dense_hiccup_shots_resumed_after_discards")
+		o.ClassIf(rest >= 5000 && discardingInstances >= c.Instances, "dense_hiccup_every_instance_ge_2s_behind_with_ge_5000_tokens_each_to_come")
+		o.ClassIf(rest >= 10000 && discardingInstances >= c.Instances, "dense_hiccup_every_instance_ge_2s_behind_with_ge_10000_tokens_each_to_come")
+		o.ClassIf(len(c.HiccupAtShot) > 1, "dense_hiccup_two_hiccups")
+		o.ClassIf(c.Instances > 1, "dense_hiccup_instances_gt_1")
+		o.Note("tokens_per_instance_to_come_at_first_hiccup", rest)
+	}
 	o.ClassIf(c.Startup != nil, "gradual_startup")
 	o.ClassIf(c.PreStartMs > 0, "rps_schedule_started_in_the_past")
 	o.ClassIf(lateStarters > 0, "instance_started_ge_1s_into_the_run")
@@ -600,6 +639,11 @@ func check(c Case, o *vf.Obs) error {
 		}
 	case c.Step:
 		if sf.reqsAfterEmpty && vsProfile > 0 {
+			o.NonTrivial()
+		}
+	case c.Hiccup:
+		// every instance fell >= 2 s behind (it discarded), and some instance fired again afterwards
+		if discardingInstances >= c.Instances && resumedInstances > 0 {
 			o.NonTrivial()
 		}
 	case c.Long:
